@@ -43,11 +43,14 @@ pub fn put_u16(buf: &mut [u8], pos: usize, v: u16, le: bool) {
 }
 pub fn put_u64(buf: &mut [u8], pos: usize, v: u64, le: bool) {
     let b = if le { v.to_le_bytes() } else { v.to_be_bytes() };
-    let mut i = 0;
-    while i < 8 {
-        buf[pos + i] = b[i];
-        i += 1;
-    }
+    buf[pos] = b[0];
+    buf[pos + 1] = b[1];
+    buf[pos + 2] = b[2];
+    buf[pos + 3] = b[3];
+    buf[pos + 4] = b[4];
+    buf[pos + 5] = b[5];
+    buf[pos + 6] = b[6];
+    buf[pos + 7] = b[7];
 }
 
 /// A name slot of 3 bytes: up to two non-NUL characters followed by NUL(s).
